@@ -247,6 +247,7 @@ class C01(Check):
         found = False
         # deletions inside a repeat whose alignment placement differs from the database placement
         moved = set()
+        moved_ins = set()
         if sh:
             inv = {(v_[3] + 1, v_[4]): k for k, v_ in gene.mutations.items()}
             base = w.plus_copy(w.seq)
@@ -256,7 +257,10 @@ class C01(Check):
                 for p1, op_ in simreads.db_variants(w, allele_):
                     if op_.startswith("del") and simreads.shift_indel(base, w.col(p1 - 1), op_, sh)[0] != w.col(p1 - 1):
                         moved.add(inv[(p1, op_)])
+                    if op_.startswith("ins") and simreads.shift_indel(base, w.col(p1 - 1), op_, sh)[0] != w.col(p1 - 1):
+                        moved_ins.add(inv[(p1, op_)])
         only_moved = bool(moved)
+        only_moved_ins = bool(moved_ins)
         for s in sols:
             got_struct = tuple(sorted(s.major_solution.cn_solution.solution.elements()))
             got_vars = collections.Counter()
@@ -274,6 +278,8 @@ class C01(Check):
                 lost = sorted((want_vars - got_vars).elements())
                 if not set(extra + lost) <= moved:
                     only_moved = False
+                if not set(extra + lost) <= moved_ins:
+                    only_moved_ins = False
                 kinds = {("indel" if m[1][:3] in ("ins", "del") else "snv") for m in extra + lost}
                 v.append((f"e2e/variants/{'+'.join(sorted(kinds))}", f"planted {comps} (rl {rl}, depth {dp}, shift {sh}, {build}): solution {s.get_minor_diplotype()} adds {extra} loses {lost}"))
         if not found:
@@ -281,6 +287,9 @@ class C01(Check):
         if v and only_moved:
             # known finding D11: keyed to exactly this situation, see known_findings.json
             v = [("e2e/shifted-repeat-deletion", "; ".join(m for _, m in v)[:600])]
+        elif v and only_moved_ins and len(comps) >= 3 and rl >= 250:
+            # known finding D15 (three copies, 250-base reads, insertion in a repeat placed elsewhere than the database does)
+            v = [("e2e/shifted-repeat-insertion", "; ".join(m for _, m in v)[:600])]
         nontriv = len(comps) != 2 or any(a not in (None, "1.001") for _, a in comps)
         return Outcome(v, key=(sols[0].get_major_diplotype(), len(sols)), nontrivial=nontriv,
                        note={"components": comps, "rl": rl, "depth": dp, "called": [s.get_minor_diplotype() for s in sols][:3]})
